@@ -18,6 +18,7 @@
 import MitmVerif.Model.C07
 import MitmVerif.Model.C07_Reader
 import MitmVerif.Model.C07_Exchange
+import MitmVerif.Lemmas.C01_Roundtrip
 namespace MitmVerif.Props.C07
 open MitmVerif MitmVerif.C07
 
@@ -938,6 +939,42 @@ example : outsOf false (runX { limit := none, thr := some 1, store := false } âŸ
     [(false, .headers .unknown false), (false, .data [1, 2]), (true, .headers (.known 1) false), (true, .data [9]), (true, .eom),
      (false, .data [3]), (false, .eom)]).2
     = [.hookHeaders, .sendHead, .sendData [1, 2], .sendData [3], .hookMsg, .sendEnd] := by decide
+
+/-! ### Transfer-Encoding: the writer frames exactly what the reader de-frames (seed c07-6) -/
+
+/-- how the HTTP/1 writers decide to chunk-frame a body: `"chunked" in headers.get("transfer-encoding", "").lower()` -/
+def writesChunked (v : Bytes) : Bool := C01.containsSub C01.sChunked (asciiLower v)
+
+/-- how the reader decides that the body arrives chunked: parse_transfer_encoding (C01's transcription over the
+    regenerated whitelist) classifies the value as "chunked is the final coding" -/
+def readsChunked (v : Bytes) : Option Bool :=
+  match C01.parseTE v with
+  | some (.chunkedFinal, _) => some true
+  | some (.other, _) => some false
+  | none => none
+
+/-- **writer_agrees_with_reader.** For EVERY Transfer-Encoding value the reader accepts â€” any case, any whitespace or
+    tabs around the commas of a coding list â€” the writers' test gives the reader's answer: a body that was de-chunked
+    on input is chunk-framed on output, and one that was not is not. -/
+theorem writer_agrees_with_reader (v : Bytes) (b : Bool) (h : readsChunked v = some b) : writesChunked v = b := by
+  unfold readsChunked at h
+  cases hp : C01.parseTE v with
+  | none => rw [hp] at h; cases h
+  | some r =>
+    obtain âŸ¨cls, wâŸ© := r
+    rw [hp] at h
+    cases cls with
+    | chunkedFinal =>
+      simp at h; subst h
+      exact C01.sendsChunked_of_parseTE hp
+    | other =>
+      simp at h; subst h
+      exact C01.not_sendsChunked_of_parseTE_other hp
+
+-- "GZip ,\t Chunked", "gzip", "chunked, gzip"
+example : readsChunked [71, 90, 105, 112, 32, 44, 9, 32, 67, 104, 117, 110, 107, 101, 100] = some true := by decide +kernel
+example : readsChunked [103, 122, 105, 112] = some false := by decide +kernel
+example : readsChunked [99, 104, 117, 110, 107, 101, 100, 44, 32, 103, 122, 105, 112] = none := by decide +kernel
 
 /-! ### parse_size -/
 
